@@ -1,6 +1,7 @@
 package mcp
 
 import (
+	"net"
 	"io"
 	"context"
 	"net/http"
@@ -396,6 +397,49 @@ func zzC12BodyLimit() {
 		vReach("bounded")
 	} else {
 		vAssert(!limited, "C12.body-limit.disabled-by-negative-option")
+	}
+	vReach("end")
+}
+
+// ---------------------------------------------------------------- C12: DNS-rebinding gate (loopback listener requires a loopback Host)
+//
+// Two consecutive requests on one handler, each arriving on its own local address with its own Host header: each is
+// judged on its own address and Host — refused with 403 and kept from the server iff it arrived on a loopback address
+// with a Host that is not loopback — whatever the handler has seen before.
+
+type zzAddr string
+
+func (a zzAddr) Network() string { return "tcp" }
+func (a zzAddr) String() string  { return string(a) }
+
+func zzC12Loopback() {
+	env := &zzC11Env{timers: map[*time.Timer]*zzTimer{}, media: "application/json"}
+	zzC11 = env
+	srv := &Server{}
+	h := NewStreamableHTTPHandler(func(*http.Request) *Server { return srv }, &StreamableHTTPOptions{Stateless: true})
+	locals := []string{"127.0.0.1:8080", "[::1]:8080", "192.0.2.10:8080", ""}
+	localIsLoopback := []bool{true, true, false, false}
+	hosts := []string{"localhost:8080", "127.0.0.1:8080", "evil.example", "evil.example:8080", "[::1]:8080"}
+	hostIsLoopback := []bool{true, true, false, false, true}
+	for i := 0; i < 2; i++ {
+		li, hi := vChoice("localAddr", 4), vChoice("host", 5)
+		ctx := context.Background()
+		if locals[li] != "" {
+			ctx = context.WithValue(ctx, http.LocalAddrContextKey, net.Addr(zzAddr(locals[li])))
+		}
+		req := (&http.Request{Method: http.MethodPost, Header: http.Header{}, Host: hosts[hi], Body: zzRawBody{}}).WithContext(ctx)
+		req.Header.Set("Accept", "application/json, text/event-stream")
+		req.Header.Set("Content-Type", "application/json")
+		w := &zzRec{hdr: http.Header{}}
+		before := len(env.served)
+		h.ServeHTTP(w, req)
+		refused := localIsLoopback[li] && !hostIsLoopback[hi]
+		if refused {
+			vAssert(w.code == http.StatusForbidden && len(env.served) == before, "C12.loopback-listener-requires-loopback-host")
+			vReach("refused")
+		} else {
+			vAssert(len(env.served) == before+1, "C12.legitimate-host-is-served")
+		}
 	}
 	vReach("end")
 }
